@@ -720,6 +720,9 @@ def plan(pid: str, tier: str, rng: random.Random) -> list[dict]:
         for n in names:
             for at in range(0, min(ncommits.get(n, 100) + 1, 400 if thorough else 160)):
                 add(kind="crash", at=at, spec=fam[n], name=n, drain="fifo")
+                if pid == "C01" and (thorough or at % 2 == 0):
+                    # after the restart, what the recovery sweep re-queued is delivered BEFORE what was already waiting
+                    add(kind="crash", at=at, spec=fam[n], name=n, drain="lifo")
             if thorough:
                 for at in range(0, 60, 2):
                     for second in range(0, 20, 3):
